@@ -67,6 +67,11 @@ def _cases(tier, seed):
                 if isinstance(val, str) and "'" not in val and '\n' not in val and '\t' not in val and val.isprintable():
                     yield {'dest': dest, 'flag': flag, 'kind': kind, 'value': val, 'fmt': 'toml', 'toml_style': 'literal'}
     yield {'dest': 'projectname', 'flag': '--project-name', 'kind': '_StoreAction', 'value': 'C:\\new\\tmp\\cache', 'fmt': 'toml', 'toml_style': 'literal'}
+    # repeatable options written one value per line, with values that contain blanks
+    for (dest, flag, kind, typ, choices) in opts:
+        if kind == '_AppendAction' and dest not in ('privacy',) and typ is None and not choices:
+            for fmt in ('setupcfg', 'ini'):
+                yield {'dest': dest, 'flag': flag, 'kind': kind, 'value': ['My Documents/custom templates', 'plain', 'vendored libs/other pack'], 'fmt': fmt}
     # unknown key, CLI override, accumulation
     yield {'special': 'ini-rules-in-pydoctor-ini', 'text': "project-name = 'tab\\there'", 'want': 'tab\there'}
     yield {'special': 'ini-rules-in-pydoctor-ini', 'text': 'project-name = 100%%', 'want': '100%'}
@@ -75,6 +80,9 @@ def _cases(tier, seed):
         yield {'special': 'makehtml-default', 'flags': flags}
     for fmt in ('toml', 'setupcfg', 'ini'):
         yield {'special': 'unknown-key', 'fmt': fmt}
+        # near misses of real option names are unknown keys like any other
+        for k in ('project_name', 'html_output', 'pyval_repr_maxlines', 'projectname', 'project-nam', 'project-name-'):
+            yield {'special': 'unknown-key', 'fmt': fmt, 'key': k}
         yield {'special': 'cli-overrides', 'fmt': fmt}
         yield {'special': 'accumulate', 'fmt': fmt}
 
@@ -190,12 +198,13 @@ def _check(case):
                         'required': f'{want} (HTML is made unless only testing / only the inventory is asked for)', 'class': 'makehtml'}
             return None
         if case.get('special') == 'unknown-key':
-            _write(d1, case['fmt'], [('--no-such-option', 'x'), ('--project-name', 'named')])
+            uk = case.get('key', 'no-such-option')
+            _write(d1, case['fmt'], [('--' + uk, 'x'), ('--project-name', 'named')])
             o, w = _from_args([], d1)
             if isinstance(o, tuple):
-                return {'observed': f'unknown key aborted the run: {o}', 'required': 'warned about, not aborting'}
-            if not any('no-such-option' in str(x.message) for x in w):
-                return {'observed': 'no warning for the unknown key', 'required': 'a warning'}
+                return {'observed': f'unknown key {uk!r} aborted the run: {o}', 'required': 'warned about, not aborting', 'class': 'unknown-key-abort'}
+            if not any(uk in str(x.message) for x in w):
+                return {'observed': f'no warning for the unknown key {uk!r}', 'required': 'a warning', 'class': 'unknown-key-silent'}
             if o.projectname != 'named' or hasattr(o, 'no_such_option'):
                 return {'observed': f'projectname={o.projectname!r}', 'required': 'known keys applied, unknown key not applied'}
             return None
